@@ -58,6 +58,19 @@ def find_witness(pid, obligation):
                 w["fn"] = fn.split("::")[1]
                 return w
         unit = obligation.get("unit", "")
+        if pid == "C14" and unit.startswith("lang_"):
+            # a call that writes to the process's standard streams
+            code = unit[5:]
+            rows_path = os.path.join(VERIF, "specs", "templates", f"{code}_rows.json")
+            ok, err = build_witness()
+            if ok and os.path.exists(rows_path):
+                for row in json.load(open(rows_path)):
+                    w = {"kind": "call", "fn": "text2digits", "lang": code, "text": row["word"], "expect": {"no_stderr": True}}
+                    p = subprocess.run([wbin("t2n_call"), json.dumps(w)], capture_output=True, text=True, timeout=20)
+                    if p.stderr.strip():
+                        w["what"] = "the call wrote to stderr: " + p.stderr.strip()[:200]
+                        return w
+            return None
         if unit.startswith("lang_") and pid not in ("C10", "C11", "C17"):
             code = unit[5:]
             rows_path = os.path.join(VERIF, "specs", "templates", f"{code}_rows.json")
@@ -70,7 +83,7 @@ def find_witness(pid, obligation):
                            "es": [("un millón", "1000000"), ("cien", "100"), ("mil", "1000")],
                            "pt": [("um milhão", "1000000"), ("cem", "100"), ("mil", "1000")],
                            "it": [("un milione", "1000000"), ("un miliardo", "1000000000"), ("cento", "100"), ("mille", "1000")],
-                           "de": [("eine million", "1000000"), ("hundert", "100"), ("tausend", "1000")],
+                           "de": [("zwei millionen", "2000000"), ("hundert", "100"), ("tausend", "1000")],
                            "nl": [("een miljoen", "1000000"), ("honderd", "100"), ("duizend", "1000")]}
                 for k in (1, 2):
                     for ph, dg in phrases.get(code, []):
@@ -173,5 +186,11 @@ def replay(path):
     if w.get("kind") == "call":
         p = subprocess.run([wbin("t2n_call"), json.dumps(w)], capture_output=True, text=True)
         print(p.stdout.strip())
+        if w.get("expect", {}).get("no_stderr"):
+            if p.stderr.strip():
+                print("REPRODUCED: the call wrote to stderr:", p.stderr.strip()[:300])
+                return 1
+            print("not reproduced: nothing was written to stderr")
+            return 0
         return 1 if p.returncode == 1 else 0
     return 1
